@@ -155,6 +155,9 @@ def overlay_for(v: Variant, root=None) -> Optional[Dict[str, str]]:
     root = root or repo_root()
     if getattr(v, 'global_twin', False) == 'rename':
         return global_rename_overlay(root)
+    if isinstance(getattr(v, 'global_twin', False), str) and v.global_twin.startswith('ast:'):
+        from .twins import ast_twin_overlay
+        return ast_twin_overlay(v.global_twin[4:], root)
     if getattr(v, 'global_twin', False):
         return global_twin_overlay(root)
     out: Dict[str, str] = {}
@@ -239,15 +242,98 @@ def variants_for(prop: str, tier: str) -> List[Variant]:
             g2 = Variant(r, 'global-twin-rename-locals', [], expect='silent')
             g2.global_twin = 'rename'
             out.append(g2)
+            from .twins import TWINS
+            for kind in sorted(TWINS):
+                g3 = Variant(r, 'global-twin-%s' % kind, [], expect='silent')
+                g3.global_twin = 'ast:' + kind
+                out.append(g3)
     return out
+
+
+# ------------------------------------------------------------------------------------------------
+# The corpus (thorough tier): the seeded changes that this property's rules are on record as reporting
+# (seeded/matrix.json) must still be reported, and every behaviour-preserving edit (neutral/) must leave the
+# property's rules silent.  Patches are applied in memory to the tree under analysis; one that no longer fits
+# is skipped.  Corpus entries are whole-property: all rules serving the property are run on the overlay.
+_VERIF = os.path.dirname(os.path.dirname(os.path.abspath(__file__)))
+_prop_base: Dict[str, set] = {}
+
+
+def _prop_keys(prop: str, repo: Repo) -> set:
+    ctx = Ctx(repo, 'quick')
+    keys = set()
+    for rule in registry.PROPERTIES[prop]['rules']:
+        res = registry.rule_fn(rule)(ctx)
+        for f in res.findings:
+            if f.props is None or prop in f.props:
+                keys.add(f.key)
+    return keys
+
+
+def corpus_jobs(prop: str) -> List[tuple]:
+    import json
+    jobs: List[tuple] = []
+    mj = os.path.join(_VERIF, 'seeded', 'matrix.json')
+    if os.path.exists(mj):
+        for row in json.load(open(mj))['rows']:
+            if prop in row.get('caught_by', {}):
+                jobs.append((prop, 'seeded', row['seed'], 'fire'))
+    nd = os.path.join(_VERIF, 'neutral')
+    if os.path.isdir(nd):
+        for d in sorted(os.listdir(nd)):
+            if os.path.isfile(os.path.join(nd, d, 'patch.diff')):
+                jobs.append((prop, 'neutral', d, 'silent'))
+    return jobs
+
+
+def eval_corpus(job: tuple) -> dict:
+    prop, kind, cid, expect = job
+    d = {'rule': '<corpus:%s>' % kind, 'name': cid, 'expect': expect, 'status': 'ok', 'got': ''}
+    try:
+        from .patching import overlay_from_patch
+        ov = overlay_from_patch(repo_root(), open(os.path.join(_VERIF, kind, cid, 'patch.diff'), encoding='utf8').read())
+        if ov is None:
+            d['status'] = 'skipped'
+            return d
+        if prop not in _prop_base:
+            _prop_base[prop] = _prop_keys(prop, Repo())
+        base = _prop_base[prop]
+        try:
+            new = _prop_keys(prop, Repo(overlay=ov)) - base
+            err = None
+        except AnalysisError as e:
+            new, err = set(), str(e)
+        if expect == 'fire':
+            if not new:
+                d['status'] = 'wrong'
+                d['got'] = 'seeded change no longer reported' + (' (analysis error: %s)' % err[:120] if err else '')
+            else:
+                d['got'] = sorted(new)[0][:160]
+        else:
+            if new:
+                d['status'] = 'wrong'
+                d['got'] = 'false alarm on a behaviour-preserving edit: %s' % sorted(new)[:2]
+            elif err:
+                d['status'] = 'skipped'
+                d['got'] = 'undecided on this edit (%s)' % err[:120]
+    except AnalysisError as e:
+        d['status'] = 'wrong'
+        d['got'] = 'analysis error on the unmodified tree: %s' % e
+    except Exception:
+        d['status'] = 'wrong'
+        d['got'] = 'internal error: ' + traceback.format_exc()[-400:]
+    return d
 
 
 def run_controls(prop: str, tier: str) -> List[dict]:
     vs = variants_for(prop, tier)
-    if not vs:
+    cj = corpus_jobs(prop) if tier == 'thorough' else []
+    if not vs and not cj:
         return []
     jobs = int(os.environ.get('VERIF_JOBS', '16'))
-    if len(vs) <= 1 or jobs <= 1:
-        return [eval_variant(v) for v in vs]
-    with ProcessPoolExecutor(max_workers=min(jobs, len(vs))) as ex:
-        return list(ex.map(eval_variant, vs))
+    if len(vs) + len(cj) <= 1 or jobs <= 1:
+        return [eval_variant(v) for v in vs] + [eval_corpus(j) for j in cj]
+    with ProcessPoolExecutor(max_workers=min(jobs, len(vs) + len(cj))) as ex:
+        out = list(ex.map(eval_variant, vs))
+        out += list(ex.map(eval_corpus, cj))
+        return out
